@@ -1,10 +1,36 @@
-(* Properties_C11.v — statements are added as the proofs land (see DESIGN.md). *)
-From Coq Require Import List ZArith.
-Require Import Tok GoVal Marshal Unmarshal.
+(* Properties_C11.v — C11: Clone produces an equal and fully independent deep copy.
+   Independence (this file, Alias.v / AliasProof.v): Clone is a marshaller
+   pumped into an unmarshaller; the only token that carries a reference into the
+   source is the byte-string token, and the unmarshaller copies it — so the
+   destination is built entirely from storage the allocator hands out during
+   the call.  Equality of source and destination is the token round trip of
+   C01 (statements added from RoundTripProof.v when it lands); the source is
+   never written: the model's marshaller is a function of its argument. *)
+From Coq Require Import List Arith.
+Require Import Alias AliasProof.
 Import ListNotations.
-Open Scope Z_scope.
 
-Example C11_model_runs :
-  unmarshal_top [] (Atlas [] 0) GAny [Tok (ArrOpen 1) None; Tok (Uint 18446744073709551615) None; Tok ArrClose None] =
-  UTDone 3 (VAny (Some (GSlice GAny, VSlice (Some [VAny (Some (GNum U64, VNum 18446744073709551615))])))).
-Proof. vm_compute. reflexivity. Qed.
+(* whatever the source's shape: the clone exists, has the same shape, and no mutable storage
+   (backing arrays of slices and byte slices, map tables, pointer targets) reachable from it
+   is reachable from the source — so no mutation through one is visible through the other *)
+Theorem C11_clone_is_an_independent_copy : forall next v,
+  (forall l, In l (locs v) -> l < next) ->
+  exists x, aclone true (asize v) next v = Some x /\ shape x = shape v /\
+            forall l, In l (locs x) -> ~ In l (locs v).
+Proof. exact clone_is_independent_copy. Qed.
+Print Assumptions C11_clone_is_an_independent_copy.
+
+Theorem C11_no_shared_storage : forall f next v x,
+  aclone true f next v = Some x -> (forall l, In l (locs v) -> l < next) ->
+  forall l, In l (locs x) -> ~ In l (locs v).
+Proof. exact clone_shares_no_storage. Qed.
+
+(* the behaviour before the repair (D8), for the record: byte tokens stored by reference *)
+Example C11_refuted_without_copy :
+  exists l, In l (locs (ASlice 1 [ABytes 2; AScalar])) /\
+            match aclone false 10 100 (ASlice 1 [ABytes 2; AScalar]) with Some x => In l (locs x) | None => False end.
+Proof. exists 2. cbn. auto. Qed.
+
+Example C11_example :
+  aclone true 10 100 (ASlice 1 [ABytes 2; APtr 3 (AMap 4 [ABytes 5])]) = Some (ASlice 100 [ABytes 101; APtr 102 (AMap 103 [ABytes 104])]).
+Proof. reflexivity. Qed.
